@@ -51,6 +51,18 @@ def install(E):
         E.events.append(('atomic.fetch_max', ctx.thread.tid))
         return old
 
+    @reg(E, 'Atomic::fetch_update', shared='atomic.fetch_update')
+    def fetch_update(E, a, ctx):
+        # fetch_update(set_order, fetch_order, f): one atomic step here (the real CAS loop retries under contention)
+        from .std import call_closure
+        old = E.load(a[0])
+        r = yield from call_closure(E, a[3], [old])
+        E.events.append(('atomic.fetch_update', ctx.thread.tid))
+        if r.var == 1:
+            E.store(a[0], r.fields[0])
+            return ok(old)
+        return err(old)
+
     @reg(E, 'Atomic::load', shared='atomic.load')
     def a_load(E, a, ctx):
         return E.load(a[0])
